@@ -34,6 +34,25 @@ TARGETS = [
      {"block": "bytes", "offsets_offset": "usize", "filter_base_lg2": "u32", "policy": "policy"}),
 ]
 
+# methods translated over a model structure: `self.f` reads/writes become reads/updates of the Lean structure value
+STRUCTS = {
+    "BlockIter": {"lean": "BlockIter",
+                  "fields": {"block": ("block", "bytes"), "restarts_off": ("restartsOff", "usize"), "offset": ("offset", "usize"),
+                             "current_entry_offset": ("curEntryOff", "usize"), "current_restart_ix": ("curRestartIx", "usize"),
+                             "key": ("key", "bytes"), "val_offset": ("valOffset", "usize")}},
+}
+_BI = r"impl\s+(?:SSIterator\s+for\s+)?BlockIter"
+TARGETS += [
+    ("block.rs", _BI, "number_restarts", "bi_number_restarts", {}, "BlockIter"),
+    ("block.rs", _BI, "get_restart_point", "bi_get_restart_point", {}, "BlockIter"),
+    ("block.rs", _BI, "reset", "bi_reset", {}, "BlockIter"),
+    ("block.rs", _BI, "valid", "bi_valid", {}, "BlockIter"),
+    ("block.rs", _BI, "parse_entry_and_advance", "bi_parse_entry_and_advance", {}, "BlockIter"),
+    ("block.rs", _BI, "assemble_key", "bi_assemble_key", {}, "BlockIter"),
+    ("block.rs", _BI, "seek_to_restart_point", "bi_seek_to_restart_point", {}, "BlockIter"),
+    ("block.rs", _BI, "advance", "bi_advance", {}, "BlockIter"),
+]
+
 WIDTH = {"u8": 8, "u32": 32, "u64": 64, "usize": 64}
 INTS = set(WIDTH)
 
@@ -168,7 +187,7 @@ class P:
                 ts.append(self.ty())
                 self.eat(",")
             self.expect(")")
-            return ("tuple", ts)
+            return ("tuple", tuple(ts))
         k, v = self.next()
         if k != "id":
             raise Untranslatable("type expected, found %r" % v)
@@ -189,14 +208,17 @@ class P:
         name = self.next()[1]
         self.expect("(")
         params = []
+        self.selfkind = None
         while not self.at(")"):
             if self.eat("&"):
-                self.eat("mut")
+                m = self.eat("mut")
                 if self.eat("self"):
+                    self.selfkind = "mut" if m else "ref"
                     self.eat(",")
                     continue
                 raise Untranslatable("pattern parameter")
             if self.eat("self"):
+                self.selfkind = "mut"
                 self.eat(",")
                 continue
             self.eat("mut")
@@ -224,6 +246,18 @@ class P:
         if v == "let":
             self.next()
             mut = self.eat("mut")
+            if self.at("("):
+                self.next()
+                names = []
+                while not self.at(")"):
+                    self.eat("mut")
+                    names.append(self.next()[1])
+                    self.eat(",")
+                self.expect(")")
+                self.expect("=")
+                init = self.expr()
+                self.expect(";")
+                return ("letpat", names, init)
             name = self.next()[1]
             ty = None
             if self.eat(":"):
@@ -258,6 +292,17 @@ class P:
             e = self.if_expr()
             self.eat(";")
             return ("expr", e, self.at("}") and not self.t[self.i - 1][1] == ";")
+        if v in ("assert_eq!", "debug_assert_eq!"):
+            self.next()
+            self.expect("(")
+            a = self.expr()
+            self.expect(",")
+            b = self.expr()
+            while self.eat(","):
+                self.expr()
+            self.expect(")")
+            self.eat(";")
+            return ("assert", ("bin", "==", a, b))
         if v in ("assert!", "debug_assert!"):
             self.next()
             self.expect("(")
@@ -400,8 +445,14 @@ class P:
         if v == "(":
             self.next()
             e = self.expr()
-            if self.eat(","):
-                raise Untranslatable("tuple expression")
+            if self.at(","):
+                items = [e]
+                while self.eat(","):
+                    if self.at(")"):
+                        break
+                    items.append(self.expr())
+                self.expect(")")
+                return ("tuple", items)
             self.expect(")")
             return ("paren", e)
         if v == "[":
@@ -454,13 +505,22 @@ class P:
 def lean_ty(t):
     if t in INTS:
         return "Nat"
+    if isinstance(t, tuple) and t[0] == "tuple":
+        return " × ".join(par(lean_ty(x)) if isinstance(x, tuple) else lean_ty(x) for x in t[1])
+    if isinstance(t, str) and t.startswith("struct:"):
+        return STRUCTS[t[7:]]["lean"]
     return {"bool": "Bool", "bytes": "Bytes", "ordering": "Ordering", "unit": "Unit", "policy": "Bytes → Bytes → Bool"}[t]
 
 
 class Ctx:
-    """how control leaves the current block"""
-    def __init__(self, on_end, on_return, on_break=None, on_continue=None):
+    """how control leaves the current block; `on_return` takes the Rust return value, `on_return_w` a value that is
+    already the function's full result (for &mut self methods: the pair of the structure and the value)"""
+    def __init__(self, on_end, on_return, on_break=None, on_continue=None, on_return_w=None):
         self.on_end, self.on_return, self.on_break, self.on_continue = on_end, on_return, on_break, on_continue
+        self.on_return_w = on_return_w or on_return
+
+
+MUT_SELF_METHODS = set()   # names of translated &mut self methods (filled while translating, callee before caller)
 
 
 def assigned_vars(stmts, acc=None):
@@ -476,6 +536,9 @@ def assigned_vars(stmts, acc=None):
     def walk_expr(e):
         if not isinstance(e, tuple):
             return
+        if e[0] == "mcall" and e[1] == ("var", "self") and e[2] in MUT_SELF_METHODS:
+            if "self" not in declared and "self" not in acc:
+                acc.append("self")
         if e[0] == "mcall" and e[2] in ("push", "extend_from_slice", "resize", "clear", "truncate"):
             r = lv_root(e[1])
             if r and r not in declared and r not in acc:
@@ -498,6 +561,9 @@ def assigned_vars(stmts, acc=None):
             if s[0] == "let":
                 walk_expr(s[3])
                 declared.add(s[1])
+            elif s[0] == "letpat":
+                walk_expr(s[2])
+                declared.update(s[1])
             elif s[0] == "assign":
                 r = lv_root(s[2])
                 if r and r not in declared and r not in acc:
@@ -527,9 +593,12 @@ def always_leaves(stmts):
 
 
 class Emitter:
-    def __init__(self, fname, consts, selffields, known_fns, rettype):
+    def __init__(self, fname, consts, selffields, known_fns, rettype, struct=None, selfkind=None):
         self.fname, self.consts, self.selffields, self.known = fname, consts, selffields, known_fns
         self.ret = rettype
+        self.struct = struct            # name in STRUCTS when the method works on a model structure value
+        self.mutself = struct is not None and selfkind == "mut"
+        self.checked_usize = struct is not None   # struct methods: usize + and * panic on overflow (2^64), as the model has it
         self.n = 0
         self.sites = 0
         self.uses_fuel = False
@@ -537,6 +606,37 @@ class Emitter:
     def fresh(self, p):
         self.n += 1
         return "%s%d" % (p, self.n)
+
+    def wrap_ret(self, code):
+        """the function's full result for the Rust return value `code`"""
+        if not self.mutself:
+            return code
+        return "self_" if self.ret == "unit" else "(self_, %s)" % code
+
+    def full_ret_ty(self):
+        if not self.mutself:
+            return par(lean_ty(self.ret))
+        sl = STRUCTS[self.struct]["lean"]
+        return sl if self.ret == "unit" else "(%s × %s)" % (sl, par(lean_ty(self.ret)))
+
+    def mut_call(self, e, env):
+        """`self.m(args)` for a translated &mut self method: (lean action, rust return type)"""
+        name, args = e[2], e[3]
+        lean, ptypes, ret, fuel, fields, skind, cstruct = self.known[name]
+        if cstruct != self.struct or not self.mutself:
+            raise Untranslatable("call of the &mut self method %s from a method that does not own the structure" % name)
+        cs = []
+        for a, (pn, pt) in zip(args, ptypes):
+            c, t = self.expr(a, env, pt)
+            if t != pt:
+                raise Untranslatable("argument type %s for %s" % (t, pt))
+            cs.append(par(c))
+        if fuel:
+            self.uses_fuel = True
+        return "%s %s" % (lean, " ".join((["fuel"] if fuel else []) + ["self_"] + cs)), ret
+
+    def is_mut_call(self, e):
+        return isinstance(e, tuple) and e[0] == "mcall" and e[1] == ("var", "self") and e[2] in self.known and self.known[e[2]][5] == "mut"
 
     def site(self, what):
         self.sites += 1
@@ -585,6 +685,9 @@ class Emitter:
                 return str(2 ** WIDTH[p[0]] - 1), p[0]
             raise Untranslatable("path %s" % "::".join(p))
         if k == "field":
+            if e[1] == ("var", "self") and self.struct and e[2] in STRUCTS[self.struct]["fields"]:
+                lf, t = STRUCTS[self.struct]["fields"][e[2]]
+                return "self_.%s" % lf, t
             if e[1] == ("var", "self") and e[2] in self.selffields:
                 return "self_" + e[2], self.selffields[e[2]]
             raise Untranslatable("field access .%s" % e[2])
@@ -618,6 +721,10 @@ class Emitter:
                 return "(← Rt.sliceChk %s %s %s %s)" % (b, par(lo), par(hi), self.site("slice")), "bytes"
             i, it = self.expr(ix, env, "usize")
             return "(← Rt.idx %s %s %s)" % (b, par(i), self.site("index")), "u8"
+        if k == "tuple":
+            wants = want[1] if isinstance(want, tuple) and want[0] == "tuple" and len(want[1]) == len(e[1]) else [None] * len(e[1])
+            items = [self.expr(x, env, w) for x, w in zip(e[1], wants)]
+            return "(" + ", ".join(c for c, _ in items) + ")", ("tuple", tuple(t for _, t in items))
         if k == "array":
             items = [self.expr(x, env, "u8") for x in e[1]]
             return "[" + ", ".join("Rt.byteLit %s" % par(c) for c, _ in items) + "]", "bytes"
@@ -700,11 +807,11 @@ class Emitter:
         if t != t2 or t not in INTS:
             raise Untranslatable("arithmetic on %s and %s" % (t, t2))
         if op == "+":
-            if t == "usize":
+            if t == "usize" and not self.checked_usize:
                 return "(%s + %s)" % (a, b), t
             return "(← Rt.addW %d %s %s %s)" % (2 ** WIDTH[t], par(a), par(b), self.site("add overflow")), t
         if op == "*":
-            if t == "usize":
+            if t == "usize" and not self.checked_usize:
                 return "(%s * %s)" % (a, b), t
             return "(← Rt.mulW %d %s %s %s)" % (2 ** WIDTH[t], par(a), par(b), self.site("mul overflow")), t
         if op == "-":
@@ -748,7 +855,7 @@ class Emitter:
         raise Untranslatable("call of %s" % p)
 
     def fn_call(self, name, args, env):
-        lean, ptypes, ret, fuel, fields = self.known[name]
+        lean, ptypes, ret, fuel, fields, skind, cstruct = self.known[name]
         cs = []
         for a, (pn, pt) in zip(args, ptypes):
             c, t = self.expr(a, env, pt)
@@ -759,6 +866,10 @@ class Emitter:
             if f not in self.selffields:
                 raise Untranslatable("call of %s needs self.%s" % (name, f))
         extra = ["self_" + f for f in fields]
+        if cstruct:
+            if cstruct != self.struct:
+                raise Untranslatable("call of a %s method outside %s" % (cstruct, cstruct))
+            extra = ["self_"] + extra
         if fuel:
             self.uses_fuel = True
             extra = ["fuel"] + extra
@@ -766,6 +877,11 @@ class Emitter:
 
     def mcall(self, e, env, want):
         recv, m, args = e[1], e[2], e[3]
+        if m == "unwrap" and not args and recv[0] == "call" and recv[1] in (["usize", "decode_var"], ["u64", "decode_var"]) and len(recv[2]) == 1:
+            a, at_ = self.expr(recv[2][0], env)
+            if at_ != "bytes":
+                raise Untranslatable("decode_var of a non-byte slice")
+            return "(← Rt.unwrapO (decodeVarint %s) %s)" % (par(a), self.site("unwrap")), ("tuple", ("usize", "usize"))
         if recv == ("field", ("var", "self"), "policy") and self.selffields.get("policy") == "policy" and m == "key_may_match" and len(args) == 2:
             a, at_ = self.expr(args[0], env)
             b, bt = self.expr(args[1], env)
@@ -778,6 +894,8 @@ class Emitter:
                 b, _ = self.expr(args[1], env)
                 return "(cmpBytes %s %s)" % (par(a), par(b)), "ordering"
             if m in self.known:
+                if self.known[m][5] == "mut":
+                    raise Untranslatable("call of the &mut self method %s inside an expression" % m)
                 return self.fn_call(m, args, env)
             raise Untranslatable("method self.%s" % m)
         r, rt = self.expr(recv, env, want if m.startswith("wrapping_") else None)
@@ -826,6 +944,33 @@ class Emitter:
             return ctx.on_end(env)
         s, rest = ss[0], ss[1:]
         k = s[0]
+        if k == "letpat":
+            _, names, init = s
+            env2 = dict(env)
+            lns = []
+            if self.is_mut_call(init):
+                act, rt = self.mut_call(init, env)
+            else:
+                act, rt = None, None
+                code, rt = self.expr(init, env)
+            if not (isinstance(rt, tuple) and rt[0] == "tuple" and len(rt[1]) == len(names)):
+                raise Untranslatable("tuple pattern for a value of type %s" % (rt,))
+            for n, t in zip(names, rt[1]):
+                ln = self.lname(n, env)
+                lns.append(ln)
+                if n != "_":
+                    env2[n] = (ln, t)
+            pat = "(" + ", ".join(lns) + ")"
+            if act is not None:
+                return "let (self_, %s) ← %s\n%s" % (pat, act, self.stmts(rest, env2, ctx))
+            return "let %s := %s\n%s" % (pat, code, self.stmts(rest, env2, ctx))
+        if k == "let" and self.is_mut_call(s[3]):
+            _, name, ty, init, mut = s
+            act, rt = self.mut_call(init, env)
+            env2 = dict(env)
+            nm = self.lname(name, env)
+            env2[name] = (nm, rt)
+            return "let (self_, %s) ← %s\n%s" % (nm, act, self.stmts(rest, env2, ctx))
         if k == "let":
             _, name, ty, init, mut = s
             env2 = dict(env)
@@ -876,6 +1021,13 @@ class Emitter:
                     b = self.stmts(e[3], env, ctx)
                     return "if %s then do\n%s\nelse do\n%s" % (c, ind(a), ind(b))
                 return self.if_stmt(e, rest, env, ctx)
+            if self.is_mut_call(e):
+                act, rt = self.mut_call(e, env)
+                if tail and not rest and rt == self.ret and rt != "unit":
+                    # `self.m(..)` as the value of the method
+                    return "let (self_, r_) ← %s\n%s" % (act, ctx.on_return("r_"))
+                bind = "let self_ ← %s" % act if rt == "unit" else "let (self_, _) ← %s" % act
+                return bind + "\n" + self.stmts(rest, env, ctx)
             if e[0] == "mcall" and e[2] in ("push", "extend_from_slice", "resize", "clear", "truncate"):
                 return self.mutate(e, env) + "\n" + self.stmts(rest, env, ctx)
             raise Untranslatable("expression statement %s" % e[0])
@@ -892,6 +1044,17 @@ class Emitter:
 
     def assign(self, s, env):
         _, op, lhs, rhs = s
+        if lhs[0] == "field" and lhs[1] == ("var", "self") and self.struct and lhs[2] in STRUCTS[self.struct]["fields"]:
+            if not self.mutself:
+                raise Untranslatable("assignment to self.%s in a &self method" % lhs[2])
+            lf, t = STRUCTS[self.struct]["fields"][lhs[2]]
+            if op == "=":
+                c, t2 = self.expr(rhs, env, t)
+            else:
+                c, t2 = self.expr(("bin", op[:-1], lhs, rhs), env, t)
+            if t2 != t:
+                raise Untranslatable("assignment of %s to self.%s : %s" % (t2, lhs[2], t))
+            return "let self_ : %s := { self_ with %s := %s }" % (STRUCTS[self.struct]["lean"], lf, c)
         if lhs[0] == "index":
             v = self.lvalue_var(lhs[1], env)
             nm, t = env[v]
@@ -914,6 +1077,18 @@ class Emitter:
         return "let %s : %s := %s" % (nm, lean_ty(t), c)
 
     def mutate(self, e, env):
+        if e[1][0] == "field" and e[1][1] == ("var", "self") and self.struct and e[1][2] in STRUCTS[self.struct]["fields"]:
+            if not self.mutself:
+                raise Untranslatable("mutation of self.%s in a &self method" % e[1][2])
+            lf, t = STRUCTS[self.struct]["fields"][e[1][2]]
+            if t != "bytes":
+                raise Untranslatable("mutation of %s" % t)
+            # translate as a mutation of a temporary, then store it back
+            tmp = self.fresh("fld")
+            env2 = dict(env)
+            env2[tmp] = (tmp, "bytes")
+            inner = self.mutate(("mcall", ("var", tmp), e[2], e[3]), env2)
+            return "let %s : Bytes := self_.%s\n%s\nlet self_ : %s := { self_ with %s := %s }" % (tmp, lf, inner, STRUCTS[self.struct]["lean"], lf, tmp)
         v = self.lvalue_var(e[1], env)
         nm, t = env[v]
         if t != "bytes":
@@ -959,7 +1134,7 @@ class Emitter:
         j = self.fresh("join")
         st, sty = self.state(vs, env)
         restcode = self.stmts(rest, env, ctx)
-        jctx = Ctx(lambda env2: "%s %s" % (j, self.state(vs, env2)[0]), ctx.on_return, ctx.on_break, ctx.on_continue)
+        jctx = Ctx(lambda env2: "%s %s" % (j, self.state(vs, env2)[0]), ctx.on_return, ctx.on_break, ctx.on_continue, ctx.on_return_w)
         a = self.stmts(th, env, jctx)
         b = self.stmts(el, env, jctx)
         return "let %s := fun (%s : %s) => do\n%s\nif %s then do\n%s\nelse do\n%s" % (
@@ -977,11 +1152,11 @@ class Emitter:
         self.uses_fuel = True
         vs = [v for v in assigned_vars(body + (post or [])) if v in env]
         st, sty = self.state(vs, env)
-        ret_ty = lean_ty(self.ret)
+        ret_ty = self.full_ret_ty()
         lctx = Ctx(lambda env2: "pure (Rt.LStep.cont %s)" % self.state(vs, env2)[0],
-                   lambda code: "pure (Rt.LStep.ret %s)" % par(code),
+                   lambda code: "pure (Rt.LStep.ret %s)" % par(self.wrap_ret(code)),
                    lambda env2: "pure (Rt.LStep.brk %s)" % self.state(vs, env2)[0],
-                   None)
+                   None, lambda code: "pure (Rt.LStep.ret %s)" % par(code))
         if post:
             # `continue` must still run the increment: not needed by the translated functions
             lctx.on_continue = None
@@ -995,7 +1170,7 @@ class Emitter:
         return ("let %s := fun (s_ : %s) => (do\n%s : Res (Rt.LStep (%s) %s))\n"
                 "match ← Rt.loopFuel %s fuel %s with\n| Rt.Flow.ret r_ => %s\n| Rt.Flow.done s_ =>\n%s") % (
             lp, sty, ind(self.destruct(vs, env, "s_") + bodycode), sty, par(ret_ty),
-            lp, st, ctx.on_return("r_"), ind(self.destruct(vs, env, "s_") + restcode))
+            lp, st, ctx.on_return_w("r_"), ind(self.destruct(vs, env, "s_") + restcode))
 
     def for_loop(self, s, rest, env, ctx):
         _, var, it, body = s
@@ -1030,16 +1205,16 @@ class Emitter:
         self.uses_fuel = True
         vs = [key] + [v for v in assigned_vars(body) if v in env and v != key]
         st, sty = self.state(vs, env)
-        ret_ty = lean_ty(self.ret)
+        ret_ty = self.full_ret_ty()
 
         def bump(env2):
             e3 = dict(env2)
             e3[key] = ("(%s + 1)" % env2[key][0], env2[key][1])
             return self.state(vs, e3)[0]
         lctx = Ctx(lambda env2: "pure (Rt.LStep.cont %s)" % bump(env2),
-                   lambda code: "pure (Rt.LStep.ret %s)" % par(code),
+                   lambda code: "pure (Rt.LStep.ret %s)" % par(self.wrap_ret(code)),
                    lambda env2: "pure (Rt.LStep.brk %s)" % self.state(vs, env2)[0],
-                   lambda env2: "pure (Rt.LStep.cont %s)" % bump(env2))
+                   lambda env2: "pure (Rt.LStep.cont %s)" % bump(env2), lambda code: "pure (Rt.LStep.ret %s)" % par(code))
         c, _ = self.expr(cond, env, "bool")
         inner = self.stmts(body, env, lctx)
         bodycode = "if %s then do\n%s\nelse pure (Rt.LStep.brk %s)" % (c, ind(inner), st)
@@ -1048,7 +1223,7 @@ class Emitter:
         return ("let %s := fun (s_ : %s) => (do\n%s : Res (Rt.LStep (%s) %s))\n"
                 "match ← Rt.loopFuel %s fuel %s with\n| Rt.Flow.ret r_ => %s\n| Rt.Flow.done s_ =>\n%s") % (
             lp, sty, ind(self.destruct(vs, env, "s_") + bodycode), sty, par(ret_ty),
-            lp, st, ctx.on_return("r_"), ind(self.destruct(vs, env, "s_") + restcode))
+            lp, st, ctx.on_return_w("r_"), ind(self.destruct(vs, env, "s_") + restcode))
 
 
 def par(c):
@@ -1075,33 +1250,48 @@ def ind(s, n=2):
 
 
 def translate(src_dir):
-    out, report, known = [], [], {}
-    for fname, impl, rust, lean, fields in TARGETS:
+    out, report, allknown = [], [], {}
+    MUT_SELF_METHODS.clear()
+    for tgt in TARGETS:
+        fname, impl, rust, lean, fields = tgt[:5]
+        struct = tgt[5] if len(tgt) > 5 else None
+        known = allknown.setdefault(fname, {})      # callees are looked up among the translated functions of the same file
         try:
             text = strip_tests(open(os.path.join(src_dir, fname)).read())
             consts = collect_consts(text)
             ftxt = find_fn(text, impl, rust)
-            name, params, ret, body = P(tokenize(ftxt)).function()
-            em = Emitter(rust, consts, fields, known, ret)
+            pr = P(tokenize(ftxt))
+            name, params, ret, body = pr.function()
+            em = Emitter(rust, consts, fields, known, ret, struct, pr.selfkind)
             env = {}
+            if struct:
+                env["self"] = ("self_", "struct:" + struct)
             for pn, pt in params:
                 env[pn] = (em.lname(pn, env), pt)
-            ctx = Ctx(lambda env2: "pure ()" if ret == "unit" else (_ for _ in ()).throw(Untranslatable("function end without value")),
-                      lambda code: "pure %s" % par(code))
+
+            def at_end(env2, ret=ret, em=em):
+                if ret == "unit":
+                    return "pure %s" % (em.wrap_ret("()") if em.mutself else "()")
+                raise Untranslatable("function end without value")
+            ctx = Ctx(at_end, lambda code, em=em: "pure %s" % par(em.wrap_ret(code)), None, None, lambda code: "pure %s" % par(code))
             code = em.stmts(body, env, ctx)
-            sig = "".join(" (self_%s : %s)" % (f, lean_ty(ft)) for f, ft in fields.items()) + "".join(" (%s : %s)" % (env[pn][0], lean_ty(pt)) for pn, pt in params)
+            sig = (" (self_ : %s)" % STRUCTS[struct]["lean"] if struct else "") + \
+                "".join(" (self_%s : %s)" % (f, lean_ty(ft)) for f, ft in fields.items()) + \
+                "".join(" (%s : %s)" % (env[pn][0], lean_ty(pt)) for pn, pt in params)
             fuel = em.uses_fuel
             out.append("/-- %s::%s -/\ndef %s%s%s : Res %s := do\n%s\n" % (
-                fname, rust, lean, " (fuel : Nat)" if fuel else "", sig, par(lean_ty(ret)), ind(code)))
-            known[rust] = (lean, params, ret, fuel, list(fields))
+                fname, rust, lean, " (fuel : Nat)" if fuel else "", sig, em.full_ret_ty(), ind(code)))
+            known[rust] = (lean, params, ret, fuel, list(fields), pr.selfkind if struct else None, struct)
+            if struct and pr.selfkind == "mut":
+                MUT_SELF_METHODS.add(rust)
             report.append((lean, "ok"))
         except Untranslatable as ex:
             out.append("-- UNTRANSLATABLE %s (%s::%s): %s\n" % (lean, fname, rust, ex))
             report.append((lean, "UNTRANSLATABLE: %s" % ex))
-        except (OSError, ValueError, IndexError, KeyError) as ex:
+        except (OSError, ValueError, IndexError, KeyError, TypeError) as ex:
             out.append("-- UNTRANSLATABLE %s (%s::%s): %s %s\n" % (lean, fname, rust, type(ex).__name__, ex))
             report.append((lean, "UNTRANSLATABLE: %s %s" % (type(ex).__name__, ex)))
-    head = ("import SstModel.Model.RustRt\n/- GENERATED by tools/gen_funcs.py from /repo/src — do not edit. -/\n"
+    head = ("import SstModel.Model.RustRt\nimport SstModel.Model.Block\n/- GENERATED by tools/gen_funcs.py from /repo/src — do not edit. -/\n"
             "set_option linter.unusedVariables false\nnamespace Sst.Gen\nopen Sst\n\n")
     return head + "\n".join(out) + "\nend Sst.Gen\n", report
 
